@@ -20,7 +20,7 @@ func runC08(outDir string, seed int64, tier string) {
 	start := time.Now()
 	sum := newSummary("C08", seed, tier)
 	r := &rng{s: uint64(seed) ^ hashString("C08")}
-	n := 2100
+	n := 2100 + len(c08NestTerms())*len(c08NestTerms())/2
 	if tier == "thorough" {
 		n = 20000
 	}
@@ -96,6 +96,17 @@ func runC08(outDir string, seed int64, tier string) {
 			a, b, c = ts[k/na], ts[k%na], ts[(k*7+5)%na]
 			pooled = true
 		}
+		if np, na, nn := len(c08Pool), len(c08ArityTerms()), len(c08NestTerms()); !pooled && i < 2*np*np+na*na+nn*nn/2 {
+			// every pair of compounds of one arity (2 or 3) whose first or last argument is a compound of
+			// arity 2 or 3 named g or h: name and arity of a nested compound decide before its arguments
+			ts := c08NestTerms()
+			k := i - 2*np*np - na*na
+			h := nn / 2
+			blk := k / (h * h)
+			k = k % (h * h)
+			a, b, c = ts[blk*h+k/h], ts[blk*h+k%h], ts[blk*h+(k*5+3)%h]
+			pooled = true
+		}
 		if !pooled && g.r.coin(0.4) {
 			b = mutateTerm(g, a)
 			if !allowVars && !ground(b) {
@@ -133,6 +144,14 @@ func runC08(outDir string, seed int64, tier string) {
 			continue
 		}
 		sum.count(fmt.Sprintf("compare:%d", ab))
+		// the order the property states (Float < Integer < Atom < Compound, numbers by value, atoms by
+		// text, compounds by arity, then name, then arguments left to right), computed on the generated
+		// term itself: only for ground terms
+		if ground(a) && ground(b) {
+			if want, ok := statedOrder(a, b); ok && want != ab {
+				addFail("order:differs-from-the-stated-order", desc, fmt.Sprint(ab), fmt.Sprint(want))
+			}
+		}
 		if pooled {
 			poolRes[[2]string{a.text(), b.text()}] = ab
 		}
@@ -265,7 +284,7 @@ func runC08(outDir string, seed int64, tier string) {
 			sum.Samples = append(sum.Samples, map[string]interface{}{"compare": key, "result": ab})
 		}
 	}
-	sum.Rule = "every pair of compounds over two names x arities 0-5 x two first arguments (arity decides before name); triples of terms (mostly ground; variables, floats vs integers, atoms ordered by text, one functor name at two arities, lists and character lists) rendered through random construction paths: compare/3 both ways and across the triple, ==/2, the five order operators, sort/2 on lists with duplicates, keysort/2 on lists of up to 41 pairs with few distinct keys; distinct by rendered pair; every case is non-trivial"
+	sum.Rule = "every pair of compounds of one arity with a nested compound (g or h, arity 2 or 3) as first or last argument; every pair of compounds over two names x arities 0-5 x two first arguments (arity decides before name); triples of terms (mostly ground; variables, floats vs integers, atoms ordered by text, one functor name at two arities, lists and character lists) rendered through random construction paths: compare/3 both ways and across the triple, ==/2, the five order operators, sort/2 on lists with duplicates, keysort/2 on lists of up to 41 pairs with few distinct keys; distinct by rendered pair; every case is non-trivial"
 	header := c02Header
 	shard := 1500
 	nf := 0
@@ -291,6 +310,101 @@ func runC08(outDir string, seed int64, tier string) {
 	}
 	poolTransitivity()
 	sum.write(outDir, start)
+}
+
+// statedOrder: the standard order as the property words it, on ground generated terms
+func statedOrder(a, b *G) (int, bool) {
+	rank := func(t *G) int {
+		switch t.K {
+		case 'f':
+			return 1
+		case 'i':
+			return 2
+		case 'a':
+			return 3
+		case 'c':
+			return 4
+		}
+		return 0
+	}
+	sgn := func(less, greater bool) int {
+		if less {
+			return -1
+		}
+		if greater {
+			return 1
+		}
+		return 0
+	}
+	ra, rb := rank(a), rank(b)
+	if ra == 0 || rb == 0 {
+		return 0, false
+	}
+	if ra != rb {
+		return sgn(ra < rb, ra > rb), true
+	}
+	switch a.K {
+	case 'f':
+		var x, y float64
+		if _, err := fmt.Sscan(a.S, &x); err != nil {
+			return 0, false
+		}
+		if _, err := fmt.Sscan(b.S, &y); err != nil {
+			return 0, false
+		}
+		return sgn(x < y, x > y), true
+	case 'i':
+		return sgn(a.I < b.I, a.I > b.I), true
+	case 'a':
+		return sgn(a.S < b.S, a.S > b.S), true
+	}
+	if len(a.Args) != len(b.Args) {
+		return sgn(len(a.Args) < len(b.Args), len(a.Args) > len(b.Args)), true
+	}
+	if a.S != b.S {
+		return sgn(a.S < b.S, a.S > b.S), true
+	}
+	for i := range a.Args {
+		c, ok := statedOrder(a.Args[i], b.Args[i])
+		if !ok {
+			return 0, false
+		}
+		if c != 0 {
+			return c, true
+		}
+	}
+	return 0, true
+}
+
+// c08NestTerms: f/2 and f/3 (first half / second half) with a compound g or h of arity 2 or 3 as
+// first or as last argument, whose own first argument is 1 or 2
+func c08NestTerms() []*G {
+	var out []*G
+	for _, outer := range []int{2, 3} {
+		for _, pos := range []int{0, 1} {
+			for _, name := range []string{"g", "h"} {
+				for _, inner := range []int{2, 3} {
+					for _, first := range []int64{1, 2} {
+						in := []*G{gi(first)}
+						for j := 1; j < inner; j++ {
+							in = append(in, gi(3))
+						}
+						args := make([]*G, outer)
+						for j := range args {
+							args[j] = gi(1)
+						}
+						if pos == 0 {
+							args[0] = gc(name, in...)
+						} else {
+							args[outer-1] = gc(name, in...)
+						}
+						out = append(out, gc("f", args...))
+					}
+				}
+			}
+		}
+	}
+	return out
 }
 
 // c08ArityTerms: f and g with 0-5 arguments, the first one a or b
